@@ -209,6 +209,13 @@ func ruleUnmarshalTotal(w *World, r *Run, rule string) {
 	if nOK == 0 {
 		r.Undecided(rule, fnUnmarshal, "", "no success path recognised")
 	}
+	// a bounded split silently merges or drops the lines beyond the bound
+	for _, s := range sums {
+		for _, sp := range calls(s, "strings.SplitN", "strings.SplitAfterN", "bytes.SplitN") {
+			n, okc := constVal(sp.Args[2])
+			r.Check(okc && n.Sign() < 0, "C11.d", fnUnmarshal+" | lines split without a bound", w.pos(sp.Pos), "the proof text is split with a bound ("+short(sp.Args[2].String())+"): a proof with that many hashes or more reads back shorter than it was written")
+		}
+	}
 	// order: r[i] = decode(lines[i]) — the store into the result uses the loop index of the line decoded
 	for _, s := range sums {
 		decs := calls(s, cDecode)
